@@ -188,7 +188,13 @@ func (s *setupWorker) setup(ctx context.Context, m transport.Metadata) error {
 		zap.String("session_username", string(connectPkt.Username)),
 	)
 	L(ctx).Debug("session connected")
-	if metadata, err := s.state.SessionMetadatas().ByClientID(session.ClientID()); err == nil {
+	// several records may be visible for this client id (a takeover elsewhere whose
+	// removal of the previous record has not reached this node yet): the new session
+	// replaces all of them
+	for _, metadata := range s.state.SessionMetadatas().All() {
+		if metadata.ClientID != session.ClientID() {
+			continue
+		}
 		err := s.state.SessionMetadatas().Delete(metadata.SessionID)
 		if err != nil {
 			return err
